@@ -10,6 +10,9 @@ import (
 	"sync"
 
 	"github.com/zclconf/go-cty/cty"
+	"github.com/zclconf/go-cty/cty/convert"
+	ctyjson "github.com/zclconf/go-cty/cty/json"
+	"github.com/zclconf/go-cty/cty/msgpack"
 	"github.com/zclconf/go-cty/cty/set"
 	"verifharness/internal/cq"
 	"verifharness/internal/gt"
@@ -420,7 +423,77 @@ func c20Purity(c *Ctx, r *rng.R) {
 
 func fingerprintNoBuckets(v cty.Value) string { return fingerprint(v) }
 
+// c20Types: types are immutable values too. A type with optional attributes below tuples, objects and collections is
+// put through everything that reads it (stripping, conformance, conversion, both codecs, JSON of the type); it prints,
+// compares and marshals afterwards as it did before, and so does a type built from it earlier.
+func c20Types(c *Ctx, r *rng.R) {
+	inner := gt.Gen(r, gt.Cfg{Depth: 2, DynPct: 5, OptPct: 60, CapPct: 0, MaxWidth: 3})
+	obj := &gt.T{K: gt.Obj, Attrs: []gt.Attr{{Name: "a", T: gt.P(gt.Str)}, {Name: "b", T: inner}}, Opt: []string{"a"}}
+	var t *gt.T
+	switch r.Intn(4) {
+	case 0:
+		t = &gt.T{K: gt.Tuple, Elems: []*gt.T{obj, gt.P(gt.Num)}}
+	case 1:
+		t = &gt.T{K: gt.Tuple, Elems: []*gt.T{{K: gt.List, Elem: obj}, {K: gt.Tuple, Elems: []*gt.T{obj}}}}
+	case 2:
+		t = &gt.T{K: gt.Obj, Attrs: []gt.Attr{{Name: "t", T: &gt.T{K: gt.Tuple, Elems: []*gt.T{obj}}}}}
+	default:
+		t = &gt.T{K: gt.Map, Elem: &gt.T{K: gt.Tuple, Elems: []*gt.T{gt.P(gt.Bool), obj}}}
+	}
+	ty := t.Build()
+	derived := cty.List(ty)
+	twin := t.Build() // built separately from the same description
+	show := func(x cty.Type) string {
+		js, _ := x.MarshalJSON()
+		return fmt.Sprintf("%#v|%s", x, js)
+	}
+	before, beforeD := show(ty), show(derived)
+	desc := map[string]interface{}{"type": t.String()}
+	step := func(name string, f func()) bool {
+		recovered(f)
+		c.Count("oracle_evals")
+		if after := show(ty); after != before || show(derived) != beforeD || !ty.Equals(twin) || !twin.Equals(ty) {
+			c.Fail("C20/type-changed", fmt.Sprintf("after %s the type prints %s; before: %s (equal to its twin: %v)", name, trunc(after, 300), trunc(before, 300), ty.Equals(twin)), desc)
+			return false
+		}
+		return true
+	}
+	stripped := ty.WithoutOptionalAttributesDeep()
+	val := gv.Gen(r, gt.Strip(t), gv.KnownCfg, 2)
+	_ = stripped
+	steps := []struct {
+		name string
+		f    func()
+	}{
+		{"WithoutOptionalAttributesDeep", func() { ty.WithoutOptionalAttributesDeep() }},
+		{"WithoutOptionalAttributesDeep of a type built from it", func() { derived.WithoutOptionalAttributesDeep() }},
+		{"TestConformance", func() { stripped.TestConformance(ty); ty.TestConformance(stripped) }},
+		{"convert.Convert with it as the target", func() { convert.Convert(val, ty) }},
+		{"convert.Convert of an unknown with it as the target", func() { convert.Convert(cty.UnknownVal(stripped), ty) }},
+		{"json Marshal / Unmarshal with it as the constraint", func() {
+			if b, err := ctyjson.Marshal(val, ty); err == nil {
+				ctyjson.Unmarshal(b, ty)
+			}
+		}},
+		{"msgpack Marshal / Unmarshal with it as the constraint", func() {
+			if b, err := msgpack.Marshal(val, ty); err == nil {
+				msgpack.Unmarshal(b, ty)
+			}
+		}},
+		{"Equals / HasDynamicTypes / FriendlyName", func() { ty.Equals(stripped); ty.HasDynamicTypes(); ty.FriendlyName() }},
+	}
+	for _, k := range r.Perm(len(steps)) {
+		if !step(steps[k].name, steps[k].f) {
+			return
+		}
+	}
+}
+
 func genC20(c *Ctx, r *rng.R, i int) {
+	if i%7 == 3 {
+		c20Types(c, r)
+		return
+	}
 	switch {
 	case i%3 == 0:
 		c20SetHistory(c, r)
